@@ -1113,3 +1113,44 @@ def scan_to_brace_or_semi(ex, pb):
     while tok_at(ex, pb) != END and tk_punct(ex, tok_at(ex, pb)) == ';':
         pb.pos += 1
     return None
+
+
+# ---------------------------------------------------------------------------
+# attribute lists made of whole option items (longer lists than the flat token alphabet reaches): order independence,
+# acceptance per target, interactions between two options
+# ---------------------------------------------------------------------------
+
+def attr_option_items(reduced=False):
+    I_ = lambda n: ('I', n)
+    P_ = lambda c: ('P', c)
+    items = [
+        ('unimock = false', [I_('unimock'), P_('='), I_('false')]),
+        ('mock_api = Bar', [I_('mock_api'), P_('='), I_('Bar')]),
+        ('mockall', [I_('mockall')]),
+        ('export = false', [I_('export'), P_('='), I_('false')]),
+        ('no_deps', [I_('no_deps')]),
+        ('?Send', [P_('?'), I_('Send')]),
+        ('delegate_by = ref', [I_('delegate_by'), P_('='), I_('ref')]),
+        ('debug = false', [I_('debug'), P_('='), I_('false')]),
+    ]
+    if not reduced:
+        items += [
+            ('unimock', [I_('unimock')]),
+            ('export', [I_('export')]),
+            ('no_deps = false', [I_('no_deps'), P_('='), I_('false')]),
+            ('mockall = true', [I_('mockall'), P_('='), I_('true')]),
+            ('delegate_by = Foo', [I_('delegate_by'), P_('='), I_('Foo')]),
+        ]
+    return items
+
+
+def attr_item_cells(target, k, head, reduced=False):
+    """[head ,] item (, item)*  with every item one lazily chosen segment (alternative 0 = nothing more)"""
+    items = attr_option_items(reduced)
+    cells = []
+    if head:
+        cells.append(('I', 'Foo'))
+    for j in range(k):
+        lead = [('P', ',')] if (head or j > 0) else []
+        cells.append(seg(f'opt[{j}]', [[]] + [lead + list(toks) for _, toks in items], ['(end)'] + [lbl for lbl, _ in items]))
+    return cells
